@@ -1,6 +1,8 @@
 (** Analysis of the regenerated gate table (gen/GateTable.v, produced from
     /repo's Go source on every run) and its tie to the model's gate lists. *)
 From Verif Require Import Json Outcome State Location GateTable.
+From Verif Require StateProofs.
+Import StateProofs(expire_false, with_purge_nil).
 
 Fixpoint tlookup (k : string) (t : list (string * list string)) : option (list string) :=
   match t with
@@ -160,25 +162,31 @@ Qed.
 
 (** * A refusing gate has no effect *)
 
+(** Nothing for a read to purge: no stored item has expired and no purge is
+    pending (the list of noted ids is empty between any two operations). *)
 Definition nothing_expired (l : loc) (now : Z) : Prop :=
-  forall id fact, alookup id (st_facts (l_state l)) = Some fact -> fact_expired fact now = false.
+  (forall id fact, alookup id (st_facts (l_state l)) = Some fact -> fact_expired fact now = false) /\
+  st_pending (l_state l) = [].
 
 Lemma upd_state_same l : upd_state l (l_state l) = l.
 Proof. destruct l; reflexivity. Qed.
 
 Lemma st_get_noexp s id now :
   (forall i f, alookup i (st_facts s) = Some f -> fact_expired f now = false) ->
+  st_pending s = [] ->
   fst (st_get s id now) = s.
 Proof.
-  intros H. unfold st_get. destruct (alookup id (st_facts s)) as [fact|] eqn:E; [|reflexivity].
-  rewrite (H id fact E). reflexivity.
+  intros H Hp. unfold st_get, get_body. destruct (alookup id (st_facts s)) as [fact|] eqn:E.
+  - rewrite (expire_false s id fact now (H id fact E)). rewrite (with_purge_nil s _ now Hp). reflexivity.
+  - rewrite (with_purge_nil s _ now Hp). reflexivity.
 Qed.
 
 Lemma get_prop_noexp l id prop now :
   nothing_expired l now -> fst (get_prop l id prop now) = l.
 Proof.
   intros H. unfold get_prop.
-  pose proof (st_get_noexp (l_state l) (String.append "!" (String.append id (String.append "." prop))) now H) as Hg.
+  pose proof (st_get_noexp (l_state l) (String.append "!" (String.append id (String.append "." prop))) now
+                           (proj1 H) (proj2 H)) as Hg.
   destruct (st_get (l_state l) _ now) as [s o] eqn:E. cbn [fst] in Hg. subst s.
   destruct o; cbn [fst]; apply upd_state_same.
 Qed.
